@@ -2998,9 +2998,15 @@ impl KotoVm {
         let accessed_value = self.clone_register(value_register);
         let key = ValueKey::from(key_string.clone());
 
+        // A 'try access' comes from a map pattern (`match`, `catch`), which matches the entries
+        // that a value contains; functions from the core library aren't entries.
+        let use_core_lib = error_if_not_found;
+
         macro_rules! core_op {
             ($module:ident, $iterator_fallback:expr) => {{
-                if let Some(op) = self.get_core_op(
+                if !use_core_lib {
+                    Ok(false)
+                } else if let Some(op) = self.get_core_op(
                     &key,
                     &self.context.core_lib.$module,
                     $iterator_fallback,
@@ -3056,6 +3062,7 @@ impl KotoVm {
 
                 // Iterator fallback?
                 if access_result.is_none()
+                    && use_core_lib
                     && (map.contains_meta_key(&UnaryOp::Iterator.into())
                         || map.contains_meta_key(&UnaryOp::Next.into()))
                 {
@@ -3095,7 +3102,10 @@ impl KotoVm {
                 }
 
                 // Iterator fallback?
-                if result.is_none() && !matches!(o.is_iterable(), IsIterable::NotIterable) {
+                if result.is_none()
+                    && use_core_lib
+                    && !matches!(o.is_iterable(), IsIterable::NotIterable)
+                {
                     result = self.get_core_op(
                         &key,
                         &self.context.core_lib.iterator,
